@@ -34,8 +34,14 @@ if [ -f $V/witness/$prop.tsv ]; then
     IFS=$'\t' read -r -a pairs <<< "$rest"
     changed=0
     for ((i=0; i+1<${#pairs[@]}; i+=2)); do
+      if [[ "${pairs[i]}" == @* ]]; then
+        # "@dir" "-": first apply the stored patch /verif/<dir>/patch.diff (a behaviour-preserving refactoring), then edit on top of it
+        (cd $S && patch -p1 -s --no-backup-if-mismatch < "$V/${pairs[i]#@}/patch.diff" >/dev/null 2>&1) && changed=1
+        continue
+      fi
+      before=$(md5sum < "$S/${pairs[i]}")
       perl -0pi -e "${pairs[i+1]}" "$S/${pairs[i]}"
-      cmp -s "$S/${pairs[i]}" "$REPO/${pairs[i]}" || changed=1
+      [ "$before" != "$(md5sum < "$S/${pairs[i]}")" ] && changed=1
     done
     if [ $changed -eq 0 ]; then echo "$prop $name: skipped(edit-no-longer-applies)"; results+=("{\"name\":\"$name\",\"expect\":\"$expect\",\"verdict\":\"skipped(edit-no-longer-applies)\"}"); else run_one "$name" "$expect" $S; fi
     rm -rf $S
